@@ -33,9 +33,10 @@ func (p *c13prop) Plan(tier string, seed int64) []core.Segment {
 	m := tierScale(tier, 30)
 	var segs []core.Segment
 	for _, t := range gen.ParserTypes {
-		segs = append(segs, core.Segment{Kind: "corpus:reset:" + t, N: 150}, core.Segment{Kind: "reset:" + t, N: 1800 * m}, core.Segment{Kind: "twin:" + t, N: 300 * m})
+		segs = append(segs, core.Segment{Kind: "corpus:reset:" + t, N: 150}, core.Segment{Kind: "reset:" + t, N: 1800 * m}, core.Segment{Kind: "twin:" + t, N: 300 * m},
+			core.Segment{Kind: "zerostart:" + t, N: 1500 * m})
 	}
-	reps := int64(3)
+	reps := int64(1)
 	if tier == "thorough" {
 		reps = 10
 	}
@@ -73,16 +74,19 @@ func (p *c13prop) Gen(kind string, idx int64, seed int64, tier string) core.Case
 		}
 		// a few instances with buffers beyond 64 KiB (large temporary slices
 		// inside the suffix array parsers, several of them at the same time)
-		for g := 0; g < 6; g++ {
-			t := []string{"OSAP", "OSAP", "OSAP", "GSAP", "BUP", "OSAP"}[g]
+		for g := 0; g < 5; g++ {
+			t := []string{"OSAP", "OSAP", "OSAP", "GSAP", "OSAP"}[g]
 			c := gen.SmallCfg(r, t, gen.Opts{})
-			c.BufferSize = 70000 + r.Intn(30000)
-			c.ShrinkSize = c.BufferSize / 2
+			// every refill adds 10 kB to more than 64 Ki buffered bytes: the
+			// instances rebuild their large temporary arrays again and again,
+			// all at the same time
+			c.BufferSize = 80000 + r.Intn(100)
+			c.ShrinkSize = c.BufferSize - 10000
 			c.WindowSize = 1 << 16
 			c.BlockSize = 16384
 			c.MaxMatchLen = 273
 			c.MinMatchLen = 3
-			_, stream := gen.Bytes(r, 160000, c.Hint())
+			_, stream := gen.Bytes(r, 100000, c.Hint())
 			ops := []POp{}
 			for i := 0; i < 6; i++ {
 				ops = append(ops, POp{K: "readfrom", A: 1, B: 0}, POp{K: "parse"}, POp{K: "parse"}, POp{K: "parse"}, POp{K: "parse"}, POp{K: "parse"}, POp{K: "parse"}, POp{K: "shrink"})
@@ -134,6 +138,65 @@ func (p *c13prop) Gen(kind string, idx int64, seed int64, tier string) core.Case
 		}
 		if class == "reset" {
 			cc.H1 = GenOps(r, 10+r.Intn(60), w)
+		}
+		if class == "zerostart" {
+			// 0x00 at buffer position 0 is indistinguishable from an unused
+			// table entry: the old stream starts with a zero run whose length
+			// is around the hash input / bucket geometry and has no zeros
+			// elsewhere; the new stream has short zero runs near its start
+			if c.BucketSize > 12 {
+				c.BucketSize = 1 + r.Intn(5)
+			}
+			if c.BufferSize < 64 {
+				c.BufferSize = 64 + r.Intn(200)
+				c.ShrinkSize = c.BufferSize / 2
+			}
+			if c.WindowSize < 32 {
+				c.WindowSize = 32 + r.Intn(300)
+			}
+			if c.BlockSize < 40 {
+				c.BlockSize = 40 + r.Intn(100)
+			}
+			cc.Cfg = c
+			il := c.InputLen + c.InputLen1
+			k := c.BucketSize + il - 1
+			switch r.Intn(4) {
+			case 0:
+				k += r.Intn(3) - 1
+			case 1:
+				k = 1 + r.Intn(12)
+			}
+			if k < 1 {
+				k = 1
+			}
+			s1 := make([]byte, k)
+			for i := 0; i < 40+r.Intn(40); i++ {
+				s1 = append(s1, byte('A'+r.Intn(50)))
+			}
+			cc.S1 = s1
+			var s2 []byte
+			if r.Intn(2) == 0 {
+				s2 = append(s2, byte('a'+r.Intn(3)))
+			}
+			for part := 0; part < 2+r.Intn(3); part++ {
+				for i, z := 0, 1+r.Intn(6); i < z; i++ {
+					s2 = append(s2, 0)
+				}
+				for i, z := 0, 1+r.Intn(5); i < z; i++ {
+					s2 = append(s2, byte('b'+r.Intn(20)))
+				}
+			}
+			for i := 0; i < 20; i++ {
+				s2 = append(s2, byte('A'+i))
+			}
+			cc.S2 = s2
+			cc.H1 = []POp{{K: "write", A: 0, B: len(s1)}, {K: "parse"}, {K: "parse"}, {K: "parse"}, {K: "parse"}}
+			reset := POp{K: "reset", A: 0}
+			if r.Intn(2) == 0 {
+				reset = POp{K: "reset", A: 1 + r.Intn(2), B: len(s2), C: r.Intn(20)}
+			}
+			cc.H2 = []POp{reset, {K: "write", A: 0, B: len(s2)}, {K: "parse"}, {K: "parse"}, {K: "parse"}, {K: "parse"}}
+			return core.MkCase(p.id, kind, idx, seed, tier, cc)
 		}
 		reset := POp{K: "reset", A: 0}
 		if r.Intn(2) == 0 {
@@ -268,7 +331,7 @@ func (p *c13prop) Run(c *core.Case, st *core.Stats) []core.Violation {
 	}
 	main := &PCase{Cfg: cc.Cfg, Stream: cc.S2, Ops: cc.H2}
 	var pre *PCase
-	if class == "reset" {
+	if class == "reset" || class == "zerostart" {
 		pre = &PCase{Cfg: cc.Cfg, Stream: cc.S1, Ops: cc.H1}
 	}
 	a, nerr := runRecorded(cc.Cfg, pre, main)
